@@ -87,7 +87,8 @@ namespace
               };
               const Range rr = r;
               // uniform
-              for (auto &op : OPS) for (double T : {1.0, 293.15, 1777.5})
+              for (auto &op : OPS) for (double T : {1.0, 293.15, 1777.5, -100.0})
+                if (!(T < 0 && op == "replace"))   // (a negative value is an ordinary offset for add / subtract)
                   base("temperature/uniform", "T=" + num(T) + " " + op, "{\"model\":\"uniform\",\"temperature\":" + num(T) + ",\"operation\":\"" + op + "\"" + range_json(r) + "}",
                        [=](const Probe &p) { Expect e; e.defined = true; e.value = in_model_range(rr, p.depth) ? apply_op(op, background(p.depth), T) : background(p.depth); return e; });
               // linear, with the sentinels
@@ -127,7 +128,7 @@ namespace
                         });
             }
     // oceanic cooling models: straight ridge along x = xr (cartesian), spreading in +-x; distance = |x - xr|
-    for (double v : {0.03, 0.1}) for (double Tb : {1600.0, -1.0}) for (double Tt : {280.0, 1.0, 2000.0 /* a top hotter than the bottom */}) for (double L : {1e5, 1.5e5})
+    for (double v : {0.03, 0.1, 0.008 /* slow spreading: the series of the plate model converges slowly near the ridge */}) for (double Tb : {1600.0, -1.0}) for (double Tt : {280.0, 1.0, 2000.0 /* a top hotter than the bottom */}) for (double L : {1e5, 1.5e5})
             {
               const double xr = 2e5;
               const std::string ridge = ",\"spreading velocity\":" + num(v) + ",\"ridge coordinates\":[[[" + num(xr) + ",-1e6],[" + num(xr) + ",1e6]]]";
@@ -188,6 +189,58 @@ namespace
                   out.push_back(c);
                 }
             }
+    // two oceanic plates with half space models over the same area (own ridge, own velocity each): the later one decides, whatever the earlier one computed at the same point
+    for (int order = 0; order < 2; ++order)
+      {
+        const double L = 1e5, Tt = 280, Tb = 1600;
+        const double XR[2] = {2e5, -1e5}, V[2] = {0.03, 0.07};
+        auto plate = [&](int k)
+        {
+          return area_feature(1, false, 0, "\"temperature models\":[{\"model\":\"half space model\",\"max depth\":" + num(L) + ",\"top temperature\":" + num(Tt) + ",\"bottom temperature\":" + num(Tb) +
+                              ",\"spreading velocity\":" + num(V[k]) + ",\"ridge coordinates\":[[[" + num(XR[k]) + ",-1e6],[" + num(XR[k]) + ",1e6]]]}]");
+        };
+        const int top = order ? 0 : 1;
+        Case c; c.family = "temperature/half space model (two plates over the same area)"; c.label = std::string("the plate listed last has its ridge at x = ") + num(XR[top]) + " and spreads with " + num(V[top]);
+        c.world = world(globals(false), {plate(1 - top), plate(top)});
+        for (double x : {-4e5, -2e5, 0.0, 0.5e5, 3e5, 4.5e5}) for (double d : {1e3, 1e4, 5e4, 9e4}) c.probes.push_back({x, 1.25e5, d});
+        c.request = {{{1,0,0}}};
+        c.expect = [=](const Probe &p)
+        {
+          Expect e; e.defined = true;
+          const LD age = static_cast<LD>(std::fabs(p.x - XR[top])) / (static_cast<LD>(V[top]) / YEAR);
+          e.value = age > 0 ? Tb + (static_cast<LD>(Tt) - Tb) * erfcl(static_cast<LD>(p.depth) / (2 * sqrtl(G_KAPPA * age))) : static_cast<LD>(Tb);
+          return e;
+        };
+        out.push_back(c);
+      }
+    // three ridge segments offset along transform faults at y = -2e5 and y = 2e5 (2, 3 and 2 coordinates), a spreading velocity per coordinate that is constant within
+    // a segment and differs between them: the age of a point is its distance from the segment on its side of the transform faults over that segment's velocity
+    for (int plate = 0; plate < 2; ++plate)
+      {
+        const double L = 1e5, Tt = 280, Tb = 1600;
+        const double V[3] = {0.02, 0.03, 0.055}, XR[3] = {1e5, 1.5e5, 0.8e5};
+        const std::string ridge = ",\"spreading velocity\":[[0,[[" + num(V[0]) + "," + num(V[0]) + "],[" + num(V[1]) + "," + num(V[1]) + "," + num(V[1]) + "],[" + num(V[2]) + "," + num(V[2]) + "]]]],"
+                                  "\"ridge coordinates\":[[[" + num(XR[0]) + ",-1e6],[" + num(XR[0]) + ",-2e5]],[[" + num(XR[1]) + ",-2e5],[" + num(XR[1]) + ",0],[" + num(XR[1]) + ",2e5]],[[" + num(XR[2]) + ",2e5],[" + num(XR[2]) + ",1e6]]]";
+        Case c; c.family = plate ? "temperature/plate model (three ridge segments)" : "temperature/half space model (three ridge segments)";
+        c.label = "oceanic plate, ridge segments of 2, 3 and 2 coordinates offset along transform faults, velocities 0.02 / 0.03 / 0.055 per coordinate";
+        c.world = world(globals(false), {area_feature(1, false, 0, std::string("\"temperature models\":[{\"model\":\"") + (plate ? "plate model" : "half space model") + "\",\"max depth\":" + num(L) + ",\"top temperature\":" + num(Tt) + ",\"bottom temperature\":" + num(Tb) + ridge + "}]")});
+        for (double x : {2.2e5, -0.6e5, 4e5}) for (double y : {-4e5, -2.6e5, -1e5, 0.7e5, 1.4e5, 3e5, 4.5e5}) for (double d : {1e4, 5e4, 9e4}) c.probes.push_back({x, y, d});
+        c.request = {{{1,0,0}}};
+        c.rel_tol = plate ? 1e-5 : 1e-9;
+        c.expect = [=](const Probe &p)
+        {
+          Expect e; e.defined = true;
+          const int k = p.y < -2e5 ? 0 : p.y < 2e5 ? 1 : 2;
+          const LD v = V[k] / YEAR, x = std::fabs(p.x - XR[k]);
+          if (!plate) { const LD age = x / v; e.value = Tb + (static_cast<LD>(Tt) - Tb) * erfcl(static_cast<LD>(p.depth) / (2 * sqrtl(G_KAPPA * age))); return e; }
+          const LD Pe = v * L / (2 * G_KAPPA);
+          LD sum = static_cast<LD>(p.depth) / L;
+          for (int n = 1; n <= 4000; ++n) sum += 2 / (n * PIl) * expl((Pe - sqrtl(Pe * Pe + n * n * PIl * PIl)) * x / L) * sinl(n * PIl * p.depth / L);
+          e.value = Tt + (Tb - Tt) * sum;
+          return e;
+        };
+        out.push_back(c);
+      }
     // spherical half space model: ridge along a meridian, symmetric about the equator, spreading velocity varying linearly along it; probes on the equator,
     // where the closest ridge point is the ridge's mid point (velocity = mean of the two end values) and the distance is R * (longitude difference)
     for (double lr : {2.0, 179.0, -179.0, 355.0}) for (double v0 : {0.03, 0.06}) for (double v1 : {0.03, 0.09})
@@ -302,13 +355,13 @@ namespace
       {
         const double s = sph ? 1.0 : 1e5;
         // vertical plume, constant circular / elliptic cross section (semi-major axis 2 units along x for rotation angle 90: azimuth from north)
-        for (double ecc : {0.0, 0.6}) for (auto &op : std::vector<std::string>{"replace", "add"}) for (double Tc : {1800.0, 250.0})
+        for (double ecc : {0.0, 0.6}) for (auto &op : std::vector<std::string>{"replace", "add"}) for (double Tc : {1800.0, 250.0, -1.0 /* sentinel at both depths: the adiabat at the depth of the point */})
               {
                 Case c; c.family = "temperature/plume gaussian"; c.label = std::string(sph ? "spherical" : "cartesian") + " plume, eccentricity " + num(ecc) + ", centerline " + num(Tc) + " " + op;
                 c.spherical = sph;
                 const double a = 2 * s, b = a * std::sqrt(1 - ecc * ecc);
                 c.world = world(globals(sph), {"{\"model\":\"plume\",\"name\":\"P\",\"coordinates\":[[0,0],[0,0]],\"cross section depths\":[1e5,3e5],\"semi-major axis\":[" + num(a) + "," + num(a) + "],\"eccentricity\":[" + num(ecc) + "," + num(ecc) + "],"
-                                               "\"rotation angles\":[90,90],\"min depth\":1e5,\"max depth\":4e5,\"temperature models\":[{\"model\":\"gaussian\",\"operation\":\"" + op + "\",\"depths\":[1e5,3e5],\"centerline temperatures\":[" + num(Tc) + "," + num(Tc + 100) + "],\"gaussian sigmas\":[0.3,0.5]}]}"});
+                                               "\"rotation angles\":[90,90],\"min depth\":1e5,\"max depth\":4e5,\"temperature models\":[{\"model\":\"gaussian\",\"operation\":\"" + op + "\",\"depths\":[1e5,3e5],\"centerline temperatures\":[" + num(Tc) + "," + num(Tc < 0 ? Tc : Tc + 100) + "],\"gaussian sigmas\":[0.3,0.5]}]}"});
                 for (auto xy : std::vector<std::array<double,2>>{{{0, 0}}, {{0.5, 0}}, {{0, 0.5}}, {{1.2, 0.4}}, {{-1.5, -0.5}}, {{0.3, -1.0}}})
                   for (double d : {1e5, 1.5e5, 2e5, 3e5, 3.5e5})
                     c.probes.push_back({xy[0]*s, xy[1]*s, d});
@@ -321,7 +374,7 @@ namespace
                   e.defined = true;
                   if (rho2 > 1) { e.value = background(p.depth); return e; }
                   const LD fr = p.depth <= 1e5 ? 0 : p.depth >= 3e5 ? 1 : (static_cast<LD>(p.depth) - 1e5L) / 2e5L;
-                  const LD tc = Tc + 100 * fr, sg = 0.3L + 0.2L * fr;
+                  const LD tc = Tc < 0 ? background(p.depth) : Tc + 100 * fr, sg = 0.3L + 0.2L * fr;
                   e.value = apply_op(op, background(p.depth), tc * expl(-rho2 / (2 * sg * sg)));
                   return e;
                 };
@@ -540,6 +593,19 @@ namespace
                 e.value = top + (static_cast<LD>(p.depth) - lo) * (1600 - top) / (static_cast<LD>(hi) - lo);
                 return e;
               });
+            add("temperature/uniform/two models, the later one with a range given at points", "1000 K everywhere, then 500 K within the local range", "\"temperature models\":[{\"model\":\"uniform\",\"temperature\":1000},{\"model\":\"uniform\",\"temperature\":500" + rj + "}]", {{{1,0,0}}},
+                [=](const Probe &p) { Expect e; e.defined = true; e.value = in_range(p) ? static_cast<LD>(500) : static_cast<LD>(1000); return e; });
+            if (mode == 2)
+              {
+                // the later model's range reaches the whole feature at its extremes (0 .. 2e5) and only down to 1.2e5 at Q
+                const std::string span = ",\"min depth\":0,\"max depth\":[[2e5],[1.2e5,[" + pt(Q) + "]]]";
+                add("temperature/uniform/two models, the later one spanning the feature except near one point", "1000 K everywhere, then 500 K down to the local bottom", "\"temperature models\":[{\"model\":\"uniform\",\"temperature\":1000},{\"model\":\"uniform\",\"temperature\":500" + span + "}]", {{{1,0,0}}},
+                    [=](const Probe &p) { Expect e; e.defined = true; e.value = p.depth <= 1.2e5 ? static_cast<LD>(500) : static_cast<LD>(1000); return e; });
+                add("composition/uniform/two models, the later one spanning the feature except near one point", "composition 1: 0.2 everywhere, then 0.75 down to the local bottom", "\"composition models\":[{\"model\":\"uniform\",\"compositions\":[1],\"fractions\":[0.2]},{\"model\":\"uniform\",\"compositions\":[1],\"fractions\":[0.75]" + span + "}]", {{{2,1,0}}},
+                    [=](const Probe &p) { Expect e; e.defined = true; e.value = p.depth <= 1.2e5 ? 0.75L : 0.2L; return e; });
+              }
+            add("composition/uniform/two models, the later one with a range given at points", "composition 1: 0.2 everywhere, then 0.75 within the local range", "\"composition models\":[{\"model\":\"uniform\",\"compositions\":[1],\"fractions\":[0.2]},{\"model\":\"uniform\",\"compositions\":[1],\"fractions\":[0.75]" + rj + "}]", {{{2,1,0}}},
+                [=](const Probe &p) { Expect e; e.defined = true; e.value = in_range(p) ? 0.75L : 0.2L; return e; });
             if (f == 0)
               for (double Tt : {293.15, -1.0})
                 add("temperature/chapman/model range given at points", "top=" + num(Tt), "\"temperature models\":[{\"model\":\"chapman\",\"top temperature\":" + num(Tt) + ",\"top heat flux\":0.055,\"thermal conductivity\":2.5,\"heat generation per unit volume\":1e-6" + rj + "}]", {{{1,0,0}}},
